@@ -98,6 +98,27 @@ def gen_config(rng, name, it):
     return ctor, par, tag
 
 
+def make_values(name, ctor, params):
+    """constructor, then whole-vector assignment of params / constants"""
+    from hydrodiy.stat import transform
+    cls = getattr(transform, name)
+    t = cls(**ctor)
+    for vec in (t.params, t.constants):
+        if vec.nval == 0:
+            continue
+        vals = [params.get(str(n), float(v)) for n, v in zip(vec.names, vec.values)]
+        if not any(v != v for v in vals):          # NaN constants stay unset
+            vec.values = vals
+        else:
+            for n, v in zip(vec.names, vals):
+                if v == v:
+                    vec[str(n)] = v
+    actual = {str(n): float(v) for n, v in zip(t.params.names, t.params.values)}
+    actual.update({str(n): float(v) for n, v in zip(t.constants.names,
+                                                   t.constants.values)})
+    return t, actual
+
+
 class Ref:
     """reference description of one configured transform"""
 
